@@ -33,25 +33,29 @@ type meth struct {
 	guard string // "" | "arg0nz" (panic if arg0 is zero) | "arg0nzErr" (error if arg0 zero)
 	infix string // if set, emit "(recv infix arg0)"
 	dec   bool   // wrap infix in decide
+	rng   string // range assertion of cosmossdk.io/math on the RESULT: "" none | "dec" assertInValidRange | "i256" 256-bit Int | "i64" | "u64" | "pow" (after every MulMut of PowerMut)
 }
 
+// rng: which results the library range-asserts (cosmossdk.io/math v1.5.0, legacy_dec.go): AddMut, SubMut, MulMut, MulTruncateMut,
+// MulRoundUpMut, MulIntMut, MulInt64Mut, QuoMut, QuoTruncateMut, QuoRoundupMut and Ceil end in d.assertInValidRange(); QuoInt(64)Mut,
+// Neg, Abs, TruncateDec do not; TruncateInt/RoundInt go through NewIntFromBigIntMut (256 bits); Truncate/RoundInt64 test IsInt64.
 var decMeths = map[string]meth{
-	"Mul": {lean: "Dec.mul", res: tDec}, "MulMut": {lean: "Dec.mul", res: tDec},
-	"MulTruncate": {lean: "Dec.mulTruncate", res: tDec}, "MulTruncateMut": {lean: "Dec.mulTruncate", res: tDec},
-	"MulRoundUp": {lean: "Dec.mulRoundUp", res: tDec}, "MulRoundUpMut": {lean: "Dec.mulRoundUp", res: tDec},
-	"Quo": {lean: "Dec.quo", res: tDec, guard: "arg0nz"}, "QuoMut": {lean: "Dec.quo", res: tDec, guard: "arg0nz"},
-	"QuoTruncate": {lean: "Dec.quoTruncate", res: tDec, guard: "arg0nz"}, "QuoTruncateMut": {lean: "Dec.quoTruncate", res: tDec, guard: "arg0nz"},
-	"QuoRoundUp": {lean: "Dec.quoRoundUp", res: tDec, guard: "arg0nz"}, "QuoRoundupMut": {lean: "Dec.quoRoundUp", res: tDec, guard: "arg0nz"},
-	"Add": {lean: "Dec.add", res: tDec}, "AddMut": {lean: "Dec.add", res: tDec},
-	"Sub": {lean: "Dec.sub", res: tDec}, "SubMut": {lean: "Dec.sub", res: tDec},
+	"Mul": {lean: "Dec.mul", res: tDec, rng: "dec"}, "MulMut": {lean: "Dec.mul", res: tDec, rng: "dec"},
+	"MulTruncate": {lean: "Dec.mulTruncate", res: tDec, rng: "dec"}, "MulTruncateMut": {lean: "Dec.mulTruncate", res: tDec, rng: "dec"},
+	"MulRoundUp": {lean: "Dec.mulRoundUp", res: tDec, rng: "dec"}, "MulRoundUpMut": {lean: "Dec.mulRoundUp", res: tDec, rng: "dec"},
+	"Quo": {lean: "Dec.quo", res: tDec, guard: "arg0nz", rng: "dec"}, "QuoMut": {lean: "Dec.quo", res: tDec, guard: "arg0nz", rng: "dec"},
+	"QuoTruncate": {lean: "Dec.quoTruncate", res: tDec, guard: "arg0nz", rng: "dec"}, "QuoTruncateMut": {lean: "Dec.quoTruncate", res: tDec, guard: "arg0nz", rng: "dec"},
+	"QuoRoundUp": {lean: "Dec.quoRoundUp", res: tDec, guard: "arg0nz", rng: "dec"}, "QuoRoundupMut": {lean: "Dec.quoRoundUp", res: tDec, guard: "arg0nz", rng: "dec"},
+	"Add": {lean: "Dec.add", res: tDec, rng: "dec"}, "AddMut": {lean: "Dec.add", res: tDec, rng: "dec"},
+	"Sub": {lean: "Dec.sub", res: tDec, rng: "dec"}, "SubMut": {lean: "Dec.sub", res: tDec, rng: "dec"},
 	"Neg": {lean: "Dec.neg", res: tDec}, "NegMut": {lean: "Dec.neg", res: tDec},
 	"Abs": {lean: "Dec.abs", res: tDec}, "AbsMut": {lean: "Dec.abs", res: tDec},
-	"Ceil": {lean: "Dec.ceil", res: tDec}, "TruncateDec": {lean: "Dec.truncateDec", res: tDec},
-	"TruncateInt": {lean: "Dec.truncateInt", res: tInt}, "TruncateInt64": {lean: "Dec.truncateInt", res: tInt},
-	"RoundInt": {lean: "Dec.roundInt", res: tInt}, "RoundInt64": {lean: "Dec.roundInt", res: tInt},
-	"MulInt": {lean: "Dec.mulInt", res: tDec}, "MulInt64": {lean: "Dec.mulInt", res: tDec},
+	"Ceil": {lean: "Dec.ceil", res: tDec, rng: "dec"}, "TruncateDec": {lean: "Dec.truncateDec", res: tDec},
+	"TruncateInt": {lean: "Dec.truncateInt", res: tInt, rng: "i256"}, "TruncateInt64": {lean: "Dec.truncateInt", res: tInt, rng: "i64"},
+	"RoundInt": {lean: "Dec.roundInt", res: tInt, rng: "i256"}, "RoundInt64": {lean: "Dec.roundInt", res: tInt, rng: "i64"},
+	"MulInt": {lean: "Dec.mulInt", res: tDec, rng: "dec"}, "MulInt64": {lean: "Dec.mulInt", res: tDec, rng: "dec"},
 	"QuoInt": {lean: "Dec.quoInt", res: tDec, guard: "arg0nzI"}, "QuoInt64": {lean: "Dec.quoInt", res: tDec, guard: "arg0nzI"},
-	"Power": {lean: "Dec.powerI", res: tDec},
+	"Power": {lean: "Dec.powerI", res: tDec, rng: "pow"},
 	"GT":    {lean: "Dec.gt", res: tBool}, "GTE": {lean: "Dec.gte", res: tBool},
 	"LT": {lean: "Dec.lt", res: tBool}, "LTE": {lean: "Dec.lte", res: tBool},
 	"Equal": {lean: "Dec.equal", res: tBool}, "IsZero": {lean: "Dec.isZero", res: tBool},
@@ -59,15 +63,18 @@ var decMeths = map[string]meth{
 	"Clone": {lean: "id", res: tDec},
 }
 
+// METHOD calls on an Int-typed value are math.Int methods (machine integers have none): Add/Sub/Mul panic with ErrIntOverflow above
+// 256 bits (int.go SafeAdd/SafeSub/SafeMul), Quo/Neg do not assert, Int64()/Uint64() panic out of their machine range.
+// Go's binary operators + - * on machine integers wrap silently and carry no assertion.
 var intMeths = map[string]meth{
-	"Add": {infix: "+", res: tInt}, "Sub": {infix: "-", res: tInt}, "Mul": {infix: "*", res: tInt},
+	"Add": {infix: "+", res: tInt, rng: "i256"}, "Sub": {infix: "-", res: tInt, rng: "i256"}, "Mul": {infix: "*", res: tInt, rng: "i256"},
 	"Quo": {lean: "Int.tdiv", res: tInt, guard: "arg0nzI"},
 	"GT":  {infix: ">", res: tBool, dec: true}, "GTE": {infix: "≥", res: tBool, dec: true},
 	"LT": {infix: "<", res: tBool, dec: true}, "LTE": {infix: "≤", res: tBool, dec: true},
 	"Equal": {infix: "=", res: tBool, dec: true}, "IsZero": {lean: "Int.isZeroB", res: tBool},
 	"IsPositive": {lean: "Int.isPosB", res: tBool}, "IsNegative": {lean: "Int.isNegB", res: tBool},
 	"ToLegacyDec": {lean: "Dec.ofInt", res: tDec}, "Neg": {lean: "Int.neg", res: tInt},
-	"Int64": {lean: "id", res: tInt}, "Uint64": {lean: "id", res: tInt},
+	"Int64": {lean: "id", res: tInt, rng: "i64"}, "Uint64": {lean: "id", res: tInt, rng: "u64"},
 }
 
 // time.Time as Int nanoseconds since the epoch: Unix() is the floor division by 10^9, comparisons are exact
@@ -147,11 +154,29 @@ type tre struct {
 	tup    []ty     // for tuple-valued calls
 	panics []string // conditions (Lean Bool exprs) that must hold to avoid a Go panic
 	errs   []string // conditions that must hold to avoid a returned error
+	rngs   []string // conditions that must hold to avoid a range-assertion panic of cosmossdk.io/math (evaluation order)
 }
 
 func (a *tre) absorb(b tre) {
 	a.panics = append(a.panics, b.panics...)
 	a.errs = append(a.errs, b.errs...)
+	a.rngs = append(a.rngs, b.rngs...)
+}
+
+// rngCheck: the range assertion the library performs on the result `lean` of an operation of class `kind`
+func rngCheck(kind, lean string) string {
+	switch kind {
+	case "dec":
+		return "(Dec.inRng " + lean + ")"
+	case "i256":
+		return "(Int256.inRange " + lean + ")"
+	case "i64":
+		return "(I64.inRange " + lean + ")"
+	case "u64":
+		return "(U64.inRange " + lean + ")"
+	}
+	bad("range class %s", kind)
+	return ""
 }
 
 func decLit(s string) string {
@@ -411,10 +436,16 @@ func (ev *env) call(c *ast.CallExpr) tre {
 			s = "(decide " + s + ")"
 		}
 		r.lean = s
+		if m.rng != "" {
+			r.rngs = append(r.rngs, rngCheck(m.rng, r.lean))
+		}
 		return r
 	}
 	if m.lean == "id" {
 		r.lean = recv.lean
+		if m.rng != "" {
+			r.rngs = append(r.rngs, rngCheck(m.rng, r.lean))
+		}
 		return r
 	}
 	parts := []string{m.lean, recv.lean}
@@ -422,6 +453,12 @@ func (ev *env) call(c *ast.CallExpr) tre {
 		parts = append(parts, a.lean)
 	}
 	r.lean = "(" + strings.Join(parts, " ") + ")"
+	if m.rng == "pow" {
+		// PowerMut asserts after every MulMut of its square-and-multiply loop
+		r.rngs = append(r.rngs, "(Dec.powerRng "+recv.lean+" "+as[0].lean+")")
+	} else if m.rng != "" {
+		r.rngs = append(r.rngs, rngCheck(m.rng, r.lean))
+	}
 	return r
 }
 
@@ -448,6 +485,7 @@ func (ev *env) known(sig *fnSig, args []ast.Expr) tre {
 	argstr := strings.Join(parts, " ")
 	acc.lean = "(" + sig.lean + " " + argstr + ")"
 	acc.panics = append(acc.panics, "("+sig.lean+"_ok "+argstr+")")
+	acc.rngs = append(acc.rngs, "("+sig.lean+"_rng "+argstr+")")
 	if sig.hasErr {
 		acc.errs = append(acc.errs, "(!"+sig.lean+"_err "+argstr+")")
 	}
@@ -555,7 +593,7 @@ func (ev *env) pkgCall(pkg, name string, c *ast.CallExpr) tre {
 // statements
 
 // outcome of translating a statement list: three Lean terms — value, ok (no panic), err (error returned)
-type out struct{ val, ok, err string }
+type out struct{ val, ok, err, rng string }
 
 func conj(gs []string, rest string) string {
 	if len(gs) == 0 {
@@ -665,10 +703,10 @@ func (ev *env) block(stmts []ast.Stmt) out {
 			if len(parts) > 1 {
 				v = "(" + strings.Join(parts, ", ") + ")"
 			}
-			return out{v, "true", "false"}
+			return out{v, "true", "false", "true"}
 		}
 		if len(ev.results) == 0 {
-			return out{"()", "true", "false"}
+			return out{"()", "true", "false", "true"}
 		}
 		bad("missing return")
 	}
@@ -696,7 +734,7 @@ func (ev *env) block(stmts []ast.Stmt) out {
 				o = ev.block(rest)
 				ev.vars = saved
 				pre := strings.Join(binds, "")
-				return out{pre + o.val, pre + o.ok, pre + o.err}
+				return out{pre + o.val, pre + o.ok, pre + o.err, pre + o.rng}
 			}
 			bad("decl")
 		}
@@ -724,14 +762,14 @@ func (ev *env) block(stmts []ast.Stmt) out {
 		o := ev.block(rest)
 		ev.vars = saved
 		pre := strings.Join(binds, "")
-		return out{pre + o.val, conj(guards.panics, pre+o.ok), errdisj(guards.errs, pre+o.err)}
+		return out{pre + o.val, conj(guards.panics, pre+o.ok), errdisj(guards.errs, pre+o.err), conj(guards.rngs, pre+o.rng)}
 	case *ast.AssignStmt:
 		return ev.assign(x, rest)
 	case *ast.ExprStmt:
 		// mutating method call on an identifier, or panic(...)
 		if c, ok := x.X.(*ast.CallExpr); ok {
 			if id, ok := c.Fun.(*ast.Ident); ok && id.Name == "panic" {
-				return out{ev.zeroVal(), "false", "false"}
+				return out{ev.zeroVal(), "false", "false", "true"} // an explicit panic is not a range assertion
 			}
 			if root, ok := mutRoot(c); ok {
 				v := ev.expr(c)
@@ -767,7 +805,7 @@ func (ev *env) ret(r *ast.ReturnStmt) out {
 		if v.t != "tuple" && (len(ev.results) != 1 || v.t != ev.results[0]) {
 			bad("return type %s vs %v", v.t, ev.results)
 		}
-		return out{v.lean, conj(v.panics, "true"), errdisj(v.errs, "false")}
+		return out{v.lean, conj(v.panics, "true"), errdisj(v.errs, "false"), conj(v.rngs, "true")}
 	}
 	if ev.hasErr {
 		last := res[len(res)-1]
@@ -779,7 +817,7 @@ func (ev *env) ret(r *ast.ReturnStmt) out {
 				// may be nil or not: only legal when it was checked; treat as propagated state
 				bad("return of unchecked err")
 			}
-			return out{ev.zeroVal(), "true", "true"}
+			return out{ev.zeroVal(), "true", "true", "true"}
 		}
 	}
 	// single call returning a tuple (possibly with error)
@@ -792,13 +830,13 @@ func (ev *env) ret(r *ast.ReturnStmt) out {
 		} else if len(ev.results) != 1 || v.t != ev.results[0] {
 			bad("return type %s vs %v", v.t, ev.results)
 		}
-		return out{v.lean, conj(v.panics, "true"), errdisj(v.errs, errRet)}
+		return out{v.lean, conj(v.panics, "true"), errdisj(v.errs, errRet), conj(v.rngs, "true")}
 	}
 	if len(res) != len(ev.results) {
 		// `return f(...)` where f returns (T, error)
 		if len(r.Results) == 1 && ev.hasErr {
 			v := ev.expr(r.Results[0])
-			return out{v.lean, conj(v.panics, "true"), errdisj(v.errs, "false")}
+			return out{v.lean, conj(v.panics, "true"), errdisj(v.errs, "false"), conj(v.rngs, "true")}
 		}
 		bad("return arity")
 	}
@@ -818,7 +856,7 @@ func (ev *env) ret(r *ast.ReturnStmt) out {
 	} else if len(parts) > 1 {
 		v = "(" + strings.Join(parts, ", ") + ")"
 	}
-	return out{v, conj(acc.panics, "true"), errdisj(acc.errs, errRet)}
+	return out{v, conj(acc.panics, "true"), errdisj(acc.errs, errRet), conj(acc.rngs, "true")}
 }
 
 // bind names := v ; rest
@@ -849,7 +887,7 @@ func (ev *env) bind(names []string, v tre, rest []ast.Stmt, define bool) out {
 	o := ev.block(rest)
 	ev.vars = saved
 	pre := fmt.Sprintf("let %s := %s\n", pat, v.lean)
-	return out{pre + o.val, conj(v.panics, pre+o.ok), errdisj(v.errs, pre+o.err)}
+	return out{pre + o.val, conj(v.panics, pre+o.ok), errdisj(v.errs, pre+o.err), conj(v.rngs, pre+o.rng)}
 }
 
 func (ev *env) assign(a *ast.AssignStmt, rest []ast.Stmt) out {
@@ -908,7 +946,7 @@ func (ev *env) assign(a *ast.AssignStmt, rest []ast.Stmt) out {
 		}
 		o := ev.block(rest)
 		ev.vars = saved
-		return out{pre + o.val, conj(acc.panics, pre+o.ok), errdisj(acc.errs, pre+o.err)}
+		return out{pre + o.val, conj(acc.panics, pre+o.ok), errdisj(acc.errs, pre+o.err), conj(acc.rngs, pre+o.rng)}
 	}
 	if len(a.Rhs) != 1 {
 		bad("assign shape")
@@ -1037,7 +1075,7 @@ func (ev *env) ifStmt(x *ast.IfStmt, rest []ast.Stmt) out {
 	mk := func(a, b string) string {
 		return fmt.Sprintf("if %s then\n%s\nelse\n%s", c.lean, indent(a), indent(b))
 	}
-	return out{mk(t.val, e.val), conj(c.panics, mk(t.ok, e.ok)), errdisj(c.errs, mk(t.err, e.err))}
+	return out{mk(t.val, e.val), conj(c.panics, mk(t.ok, e.ok)), errdisj(c.errs, mk(t.err, e.err)), conj(c.rngs, mk(t.rng, e.rng))}
 }
 
 func indent(s string) string {
